@@ -68,6 +68,13 @@ type roomSt struct {
 
 	pend *call
 
+	// history bias (generator only, not part of the model): a Leave was
+	// abandoned (its context ended before the room answered); the late
+	// confirmation, a rejoin and another Leave are then made likely, because
+	// leftovers of the abandoned attempt only show in that sequence
+	abandonedLeave bool
+	lateConfirmed  bool
+
 	queried []bool // Joined() answers that were checked, in order
 }
 
